@@ -616,5 +616,56 @@ func (w *World) outlineProbe(cs consensus.State, b types.Block) {
 	}
 	if err := consensus.ValidateBlock(cs, got, consensus.V1BlockSupplement{Transactions: make([]consensus.V1TransactionSupplement, len(got.Transactions))}); err != nil && len(got.Transactions) == 0 {
 		w.violate("C18", "completed-block-invalid", fmt.Sprintf("block completed from the outline of %s is rejected: %v", short(bid), err))
+		return
 	}
+	// the completed outline forgets a (new) subset again: as if it had been withheld from the start
+	var rm1 []types.Transaction
+	var rm2 []types.V2Transaction
+	var wantGone []types.Hash256
+	for i := range b.Transactions {
+		if t.Chance(1, 2) {
+			rm1 = append(rm1, b.Transactions[i])
+			wantGone = append(wantGone, b.Transactions[i].MerkleLeafHash())
+		}
+	}
+	for i := range b.V2.Transactions {
+		if t.Chance(1, 2) {
+			rm2 = append(rm2, b.V2.Transactions[i].DeepCopy())
+			wantGone = append(wantGone, b.V2.Transactions[i].MerkleLeafHash())
+		}
+	}
+	if p := guard(func() {
+		bo2.RemoveTransactions(append([]types.Transaction{{ArbitraryData: [][]byte{[]byte("unrelated")}}}, rm1...), append(rm2, extra))
+	}); p != "" {
+		w.violate("C10", "outline-complete-panic", "RemoveTransactions: "+p)
+		return
+	}
+	if bo2.ID(cs) != bid {
+		w.violate("C18", "outline-id", fmt.Sprintf("outline of block %s has ID %s after RemoveTransactions of %d of its transactions", short(bid), short(bo2.ID(cs)), len(wantGone)))
+		return
+	}
+	if gone := bo2.Missing(); fmt.Sprint(gone) != fmt.Sprint(wantGone) {
+		w.violate("C18", "outline-missing", fmt.Sprintf("outline of block %s: after RemoveTransactions of %d transactions Missing() reports %d hashes (or order differs)", short(bid), len(wantGone), len(gone)))
+		return
+	}
+	fresh := gateway.OutlineBlock(b, rm1, rm2)
+	var b1, b2 bytes.Buffer
+	e1, e2 := types.NewEncoder(&b1), types.NewEncoder(&b2)
+	gateway.VerifEncodeOutline(e1, &bo2)
+	gateway.VerifEncodeOutline(e2, &fresh)
+	e1.Flush()
+	e2.Flush()
+	if !bytes.Equal(b1.Bytes(), b2.Bytes()) {
+		w.violate("C18", "outline-remove-differs", fmt.Sprintf("outline of block %s after RemoveTransactions encodes differently from the outline built with the same %d transactions withheld", short(bid), len(wantGone)))
+		return
+	}
+	if p := guard(func() { got, still = bo2.Complete(cs, rm1, rm2) }); p != "" {
+		w.violate("C10", "outline-complete-panic", p)
+		return
+	}
+	if len(still) != 0 || !bytes.Equal(fullBlockBytes(got), fullBlockBytes(b)) {
+		w.violate("C18", "outline-completion-differs", fmt.Sprintf("block completed from the outline of %s after RemoveTransactions + Complete is not the original block (%d still missing)", short(bid), len(still)))
+		return
+	}
+	w.stats.Inc("probe.O1-outline-remove")
 }
